@@ -133,6 +133,14 @@ func verifyFunc(p *Program, c *FuncContract) (res *FuncResult) {
 			ex.obligeSpec(r.st, "post", e.Label, cond, e, nil)
 		}
 	}
+	// vacuity guard: some return must be reachable under the contract's assumptions
+	if len(fr.rets) > 0 && ex.discover == nil {
+		var pcs []*Term
+		for _, r := range fr.rets {
+			pcs = append(pcs, r.st.pc)
+		}
+		ex.obls = append(ex.obls, &Obligation{Name: c.Name + "/cover:return", Func: c.Name, Kind: "cover", PC: ex.tb.Or(pcs...), Claim: ex.tb.False, Entry: ex.entry})
+	}
 	// merge duplicate obligation names (same site reached through several
 	// paths, e.g. one ensures at several returns): conjoin as one obligation
 	res.Obligations = mergeObligations(ex, ex.obls)
